@@ -464,6 +464,20 @@ func (c *Ctx) finish(info propInfo) int {
 		"notes":               c.notes,
 		"exhaustive":          false,
 	}
+	// the complete, current list of clauses is kept in one place (manifest_src.json, extended after
+	// every round); the evidence quotes it so that it cannot drift from the manifest
+	if b, err := os.ReadFile(filepath.Join(c.VerifDir, "manifest_src.json")); err == nil {
+		var ms struct {
+			Claimed map[string]struct {
+				Text string `json:"text"`
+			} `json:"claimed"`
+		}
+		if json.Unmarshal(b, &ms) == nil {
+			if cl, ok := ms.Claimed[c.Prop]; ok && cl.Text != "" {
+				cov["clauses_decided"] = cl.Text
+			}
+		}
+	}
 	if info.assumptions == nil {
 		info.assumptions = []string{}
 	}
